@@ -76,3 +76,50 @@ def gen_case(rng, enum=None, small=False):
         params["k"], params["precision"] = rng.choice([(10, 1e-5), (2, 1e-2), (40, 1e-3), (5, 1e-4)])
     return {"kind": enum + "/" + g["kind"] + "/" + w["kind"], "grammar": g, "weights": w, "enum": enum,
             "params": params, "limit": 4000}
+
+
+def gen_inf_case(rng, enum):
+    """A recursive grammar (CFG.depth_constraint with a negative bound): only a prefix of the output is taken."""
+    dsl = D.gen_dsl(rng, rng.choice(["F1", "F2", "F2", "F2"]))
+    # conversions between the base types make cycles through several non-terminals likely
+    bases = sorted({repr(D.arrow_parts(p[1])[1]) for p in dsl["prims"]})
+    g = {"kind": "inf", "prims": dsl["prims"], "forbidden": dsl["forbidden"], "request": dsl["request"],
+         "n_gram": rng.choice([1, 1, 2]), "const_types": [], "max_depth": 12}
+    w = {"kind": rng.choice(["random", "skewed", "skewed", "ties", "uniform"]), "seed": rng.randrange(10 ** 6)}
+    params = {}
+    if enum == "hs_bucket":
+        params["bucket_size"] = rng.choice([2, 3, 5])
+    if enum == "cd":
+        params["k"], params["precision"] = rng.choice([(10, 1e-5), (5, 1e-4)])
+    return {"kind": enum + "/inf/" + w["kind"], "grammar": g, "weights": w, "enum": enum, "params": params,
+            "limit": rng.choice([60, 150, 300])}
+
+
+def gen_inf_cycle_case(rng, enum):
+    """Recursive 1-gram grammar whose base types form a cycle of unary conversions, one type
+    having only a very improbable leaf: the cheapest program of that type goes round the
+    cycle, which the cost re-evaluation of the enumerators must discover."""
+    k = rng.choice([3, 3, 4])
+    bases = [[0, 0], [0, 1], [0, 10], [0, 11]][:k]
+    prims, pid = [], 100
+    rare = []
+    for i, b in enumerate(bases):
+        r = rng.random()
+        if i > 0 and r < 0.4:
+            continue                      # no leaf at all: only reachable round the cycle
+        prims.append([pid, b])
+        if i > 0 and r < 0.8:
+            rare.append("p%d" % pid)
+        pid += 1
+    for i in range(k):
+        prims.append([pid, [1, bases[i], bases[(i + 1) % k]]])
+        pid += 1
+    prims.append([pid, [1, bases[0], [1, bases[0], bases[0]]]])
+    rng.shuffle(prims)
+    order = list(range(k))
+    request = [1, bases[rng.randrange(k)], bases[0]]
+    g = {"kind": "inf", "prims": prims, "forbidden": [], "request": request, "n_gram": 1, "const_types": [], "max_depth": 12}
+    w = {"kind": "rare_leaf", "seed": rng.randrange(10 ** 6), "rare": rare}
+    params = {"k": 10, "precision": 1e-5} if enum == "cd" else {}
+    return {"kind": enum + "/inf-cycle/rare_leaf", "grammar": g, "weights": w, "enum": enum, "params": params,
+            "limit": rng.choice([40, 80])}
